@@ -180,7 +180,9 @@ impl<'a> Exec<'a> {
             ftp_log: vec![],
             do_flush: cfg.tlb,
             rec_alias: cfg.rec_alias && matches!(cfg.view, View::Recursive { .. }),
+            persist: cfg.persist,
         });
+        crate::seams::persist_reset();
         let mut e = Exec { cfg: cfg.clone(), rs, probes: BOUNDARY.to_vec(), stats, scribble_salt: 1, enum_range_steps: 0 };
         set_run(&mut *e.rs as *mut RunState);
         *e.stats.views.entry(cfg.view.name().to_string()).or_insert(0) += 1;
@@ -435,6 +437,12 @@ impl<'a> Exec<'a> {
                             expected.insert(*p);
                         }
                     }
+                }
+                if start > end {
+                    // an empty range: whether the level-4 table is looked at (the constructor of a
+                    // fresh mapper does) is immaterial
+                    visited.remove(&Path::ROOT);
+                    expected.remove(&Path::ROOT);
                 }
                 if visited != expected {
                     let missing: Vec<String> = expected.difference(&visited).map(|p| p.fmt()).collect();
@@ -696,7 +704,9 @@ impl<'a> Exec<'a> {
             if !step.is_mutating() {
                 props.push("C09");
             }
-            if !failed {
+            // a changed leaf entry (or an entry that appeared where nothing is mapped) changes what
+            // addresses translate to, whatever the call returned
+            if !failed || (is_table && (msg.starts_with("leaf entry") || msg.starts_with("entry "))) {
                 props.push("C01");
             }
             if !is_table {
